@@ -18,6 +18,17 @@ Definition judge_b (c : bcase) : bool :=
   | Bound v => b_reached c && match b_value c with Some w => value_eqb v w | None => false end
   end.
 
+(* C03: one array parameter *)
+Record rcase := { ra_param : aparam; ra_raws : list str; ra_has_key : bool; ra_reached : bool; ra_values : option (list value) }.
+Fixpoint values_eqb (a b : list value) : bool :=
+  match a, b with [], [] => true | x :: r, y :: r' => value_eqb x y && values_eqb r r' | _, _ => false end.
+Definition judge_r (c : rcase) : bool :=
+  match bind_array (ra_param c) (ra_raws c) (ra_has_key c) with
+  | AReject => negb (ra_reached c)
+  | AAbsent => ra_reached c && match ra_values c with None | Some [] => true | Some _ => false end
+  | ABound vs => ra_reached c && match ra_values c with Some ws => values_eqb vs ws | None => false end
+  end.
+
 (* C03/C04: splitting by collection format *)
 Record scase := { s_sep : N; s_raw : str; s_items : list str }.
 Fixpoint strs_eqb (a b : list str) : bool :=
@@ -53,9 +64,9 @@ Definition judge_a (c : acase) : bool :=
   | _, _ => false
   end.
 
-Inductive anycase := CB (c : bcase) | CS (c : scase) | CJ (c : jcase) | CC (c : ccase) | CA (c : acase).
+Inductive anycase := CB (c : bcase) | CS (c : scase) | CJ (c : jcase) | CC (c : ccase) | CA (c : acase) | CR (c : rcase).
 Definition judge (c : anycase) : bool :=
-  match c with CB x => judge_b x | CS x => judge_s x | CJ x => judge_j x | CC x => judge_c x | CA x => judge_a x end.
+  match c with CB x => judge_b x | CS x => judge_s x | CJ x => judge_j x | CC x => judge_c x | CA x => judge_a x | CR x => judge_r x end.
 Fixpoint run_from (i : nat) (cs : list anycase) : list nat :=
   match cs with [] => [] | c :: r => if judge c then run_from (S i) r else i :: run_from (S i) r end.
 Definition run_cases (cs : list anycase) := run_from 0 cs.
